@@ -88,4 +88,21 @@ PROPS = {
         "must_hit": ["form:threads=1", "form:threads=2", "snapshot_comparisons"],
         "race": True, "race_share": 0.35,
     },
+    "C07": {
+        "level": "exploration",
+        "design_ref": "DESIGN.md §5.4",
+        "technique": "deterministic simulation: fake clock, cancellation injected at any step or instant into generated non-terminating programs; bounded-steps-after-cancel invariant",
+        "level_text": "Seeded search over (program shape, cancellation kind, cancellation instant): non-terminating programs from a grammar covering every construct the statement "
+                      "names run on the synctest fake clock with a simulated cost per evaluation step; the context ends by deadline, by cancel() at a drawn step, through a parent "
+                      "context or before entry. Invariant: at most B = 200 + 20*(AST nodes) evaluation steps of the calling thread and (B+10) step costs of simulated time after "
+                      "the context ended; try-free programs return a timeout error; a timeout inside a try body under a deadline is caught and the handler runs once.",
+        "level_note": "Trusts the simulator and the synctest clock. Builtins see small data only. A future body that keeps running after EVAL returned is reported as a probe, not judged.",
+        "rule": "one run = one seeded tape: a program drawn from the grammar (11 endless leaves: tail / non-tail / macro recursion, cond, and/or, ->, sleeping loop, long sleep, swap! loop, apply, "
+                "deref of a body ignoring cancellation; wrapped in map/reduce/swap!/update callbacks, future deref, do/let/if, try/catch/finally nests to depth 4 whose handlers and finally "
+                "bodies loop, sleep, return, rethrow), a step cost of 1us..1ms with optional jitter, and a cancellation (kind x instant, log-uniform up to ~32k steps). "
+                "non-trivial = the context ended while the program was running; distinct = distinct (program text, cancellation kind, instant, interleaving) hash",
+        "assumptions": COMMON_ASSUMPTIONS + ["the word 'timeout' in the error message identifies a timeout error"],
+        "must_hit": ["fault:deadline", "fault:cancel-at-step", "fault:parent-cancel-at-step", "fault:ended-at-entry", "fault:deadline-parent", "wake:sleep.ctx", "wake:future.deref.ctx", "handler_probe_ok", "shape:try", "shape:macro"],
+        "race": False,
+    },
 }
